@@ -199,23 +199,17 @@ func c08R1(c *Ctx) {
 
 func c08R2(c *Ctx) {
 	f := c.fn("trzszTransfer.sendPrefixHash")
-	// early exit: tgtFile.Size <= 0 -> return srcFile.Size without seeking
-	entry := f.Blocks[0]
-	i := blockIf(entry)
+	// early exit: both ends skip the exchange exactly for an empty / absent target: the exchange's first step sits
+	// on the target-size > 0 edge (however the source spells it) on both ends
 	goodEarly := false
-	if i != nil {
-		op, x, y, ok := cmpFact(normFact(fact{V: i.Cond, Pol: true}))
-		if ok && op == token.LEQ && isFieldLoad("Size")(x) && isConstIntV(0)(y) {
-			goodEarly = true
-		}
+	for _, ci := range callsIn(f, idIs(tT+"pipelineSendHash")) {
+		goodEarly = factPositive(factsAt(ci.Block()), isFieldLoad("Size"))
 	}
 	c.check(goodEarly, "sendPrefixHash/early-exit", c.pos(f.Pos()), "sender skips the exchange on target size <= 0 (same predicate as the receiver)", "sender's early-exit predicate differs from the receiver's (target size <= 0)")
 	rf := c.fn("trzszTransfer.recvPrefixHash")
-	ri := blockIf(rf.Blocks[0])
 	goodR := false
-	if ri != nil {
-		op, x, y, ok := cmpFact(normFact(fact{V: ri.Cond, Pol: true}))
-		goodR = ok && op == token.LEQ && isFieldLoad("Size")(x) && isConstIntV(0)(y)
+	for _, ci := range callsIn(rf, idIs(tT+"recvHash")) {
+		goodR = factPositive(factsAt(ci.Block()), isFieldLoad("Size"))
 	}
 	c.check(goodR, "recvPrefixHash/early-exit-predicate", c.pos(rf.Pos()), "receiver skips the exchange on target size <= 0", "receiver's early-exit predicate is not target size <= 0")
 	// seek to the received match step; return size - matchStep
